@@ -4,6 +4,9 @@ CONSTANTS
   Alphabet = {120, 58, 35, 32, 9, 13, 10}
   MaxLen = 5
   LemmaLen = 0
+  GpgLen = 3
+  StrictDroppedInGpgClasses = FALSE
+  PosStrictMissedByPrepass = FALSE
   ZoneWhatIf = FALSE
   Emit = FALSE
   NoIndentRule = FALSE
